@@ -32,6 +32,8 @@ def check(c: Check):
     clause_c(c)
     clause_d(c)
     clause_e(c)
+    from .common import sweep_records
+    sweep_records(c, 'C14-rec', ['exactly_lib.type_val_prims.string_source', 'exactly_lib.impls.types.string_source'], floor=2)
 
 
 def _text_value_modules(ix: Index):
